@@ -68,6 +68,42 @@ func oracleTop(fn *ssa.Function) oracleFunc {
 	return func(*Interp, *State, []AV) [][]AV { return [][]AV{o} }
 }
 
+// oracleFreshNonNeg: like oracleFresh, and the float answers are known to be
+// non-negative (distances).
+func oracleFreshNonNeg(fn *ssa.Function) oracleFunc {
+	inner := oracleFresh(fn)
+	return func(it *Interp, s *State, args []AV) [][]AV {
+		outs := inner(it, s, args)
+		if it.NonNeg == nil {
+			it.NonNeg = map[int]bool{}
+		}
+		for _, o := range outs[0] {
+			if f, ok := o.(FloatV); ok && f.Sym > 0 {
+				it.NonNeg[f.Sym] = true
+			}
+		}
+		return outs
+	}
+}
+
+// oracleFreshPos: like oracleFreshNonNeg, and the answers are taken to be
+// strictly positive (the rule using it states the restriction).
+func oracleFreshPos(fn *ssa.Function) oracleFunc {
+	inner := oracleFreshNonNeg(fn)
+	return func(it *Interp, s *State, args []AV) [][]AV {
+		outs := inner(it, s, args)
+		if it.Positive == nil {
+			it.Positive = map[int]bool{}
+		}
+		for _, o := range outs[0] {
+			if f, ok := o.(FloatV); ok && f.Sym > 0 {
+				it.Positive[f.Sym] = true
+			}
+		}
+		return outs
+	}
+}
+
 // oracleFresh: one outcome whose floats (and points) are fresh identified
 // unknowns, different for every call.
 func oracleFresh(fn *ssa.Function) oracleFunc {
@@ -116,6 +152,7 @@ func ruleCompose(mk func(thorough bool) []composeSpec, floor int) ruleFunc {
 			}
 			it.Oracles = map[*ssa.Function]oracleFunc{}
 			it.Terms = sp.terms
+			it.NonNeg, it.Positive = nil, nil
 			missing := ""
 			var okeys []string
 			for k := range sp.oracles {
